@@ -27,6 +27,10 @@ const basePrelude = `(set-option :produce-models true)
 (declare-fun chancap (V) Int)
 (declare-fun closureOf (V) Str)
 (declare-fun strlt (Str Str) Bool)
+; Go's < on strings is a strict total order (irreflexive, transitive, total)
+(assert (forall ((a Str)) (! (not (strlt a a)) :pattern ((strlt a a)))))
+(assert (forall ((a Str) (b Str) (c Str)) (! (=> (and (strlt a b) (strlt b c)) (strlt a c)) :pattern ((strlt a b) (strlt b c)))))
+(assert (forall ((a Str) (b Str)) (! (or (strlt a b) (= a b) (strlt b a)) :pattern ((strlt a b)))))
 (declare-fun strcat (Str Str) Str)
 (declare-fun strlen (Str) Int)
 `
